@@ -7,10 +7,10 @@ export CARGO_NET_OFFLINE=true
 git checkout -q -- . 2>/dev/null
 git apply --check "$OUT/patch.diff" || { echo "PATCH DOES NOT APPLY"; exit 1; }
 cargo build --offline -j6 -p cfn-guard --bin cfn-guard >/dev/null 2>&1 || { echo "CLEAN BUILD FAILED"; exit 1; }
-sh "$OUT/demo.sh" "$WT/target/debug/cfn-guard" >/dev/null 2>&1; A=$?
+bash "$OUT/demo.sh" "$WT/target/debug/cfn-guard" >/dev/null 2>&1; A=$?
 git apply "$OUT/patch.diff"
 cargo build --offline -j6 -p cfn-guard --bin cfn-guard >/dev/null 2>&1 || { echo "PATCHED BUILD FAILED"; exit 1; }
-sh "$OUT/demo.sh" "$WT/target/debug/cfn-guard" >/dev/null 2>&1; B=$?
+bash "$OUT/demo.sh" "$WT/target/debug/cfn-guard" >/dev/null 2>&1; B=$?
 T=$(cargo nextest run --workspace --no-fail-fast --offline --test-threads 6 2>&1 | grep -E "^\s*Summary" | tail -1)
 git checkout -q -- .
 echo "demo clean=$A patched=$B tests: $T"
